@@ -77,6 +77,22 @@ theorem stepOf_param_free_some (n : String) (hn : n ∈ paramFree) (d : List (St
   simp only [paramFree, List.mem_cons, List.not_mem_nil, or_false] at hn
   rcases hn with h | h | h | h | h | h | h | h | h | h <;> subst h <;> rfl
 
+/-- a pipeline of parameter-free transformations is the same pipeline whatever words follow `--params` -/
+theorem stepsOf_param_free : ∀ (ns : List String) (_h : ∀ n ∈ ns, n ∈ paramFree) (pw pw' : List Str),
+    stepsOf (ns.map String.toList) pw = stepsOf (ns.map String.toList) pw'
+  | [], _, _, _ => rfl
+  | n :: ns, h, pw, pw' => by
+    rw [List.map_cons, stepsOf_cons, stepsOf_cons,
+      stepOf_param_free n (h n List.mem_cons_self) (optionsDict pw) (optionsDict pw'),
+      stepsOf_param_free ns (fun m hm => h m (List.mem_cons_of_mem _ hm)) pw pw']
+
+/-- ... and so is the whole command -/
+theorem runCmd_param_free (ns : List String) (h : ∀ n ∈ ns, n ∈ paramFree) (pw pw' dw sw : List Str) (fmt : DestFmt)
+    (enc : Option Str) (src : Source) :
+    runCmd (ns.map String.toList) pw fmt dw enc sw src = runCmd (ns.map String.toList) pw' fmt dw enc sw src := by
+  unfold runCmd
+  rw [stepsOf_param_free ns h pw pw']
+
 /-- `binarize`: bare labels iff some word of `--params` has the key `bare_bin_labels` -/
 theorem stepOf_binarize (pw : List Str) :
     ∃ b : Bool, (b = true ↔ ∃ w ∈ pw, (parseOption w).1 = "bare_bin_labels".toList) ∧
